@@ -49,7 +49,7 @@ def split(idx, na):
     return tuple(int(v) for v in idx[:na]), tuple(int(v) for v in idx[na:])
 
 
-def make_component(na: int, nd: int, ns: int, limits: tuple, kpl: int = 1, name='c'):
+def make_component(na: int, nd: int, ns: int, limits: tuple, kpl: int = 1, name='c', fail_alpha=None):
     """A real Component with `na` model-, `nd` data- and `ns` surrogate-fidelity dimensions and per-dimension limits.
     The model is transcendental and fidelity dependent so that the interpolants of different indices differ."""
     assert len(limits) == na + nd + ns and nd >= 1
@@ -61,8 +61,17 @@ def make_component(na: int, nd: int, ns: int, limits: tuple, kpl: int = 1, name=
         fac = 1.0 + 0.25 * (mf.sum(axis=-1) if na > 0 else 0.0)
         return {'y': np.exp(0.3 * s) * fac}
 
+    def failing_model(inputs, model_fidelity=None):
+        # every evaluation at the fidelity `fail_alpha` raises (a solver that crashes at its finest setting): the index
+        # bookkeeping must not depend on whether evaluations succeed
+        if tuple(int(v) for v in np.atleast_1d(model_fidelity)) == tuple(fail_alpha):
+            raise RuntimeError('model fails at this fidelity')
+        s = sum((k + 1) * float(inputs[f'x{k}']) for k in range(nd))
+        return {'y': float(np.exp(0.3 * s) * (1.0 + 0.25 * float(np.sum(np.atleast_1d(model_fidelity)))))}
+
     from amisc.training import SparseGrid
-    comp = Component(model, inputs=inputs, outputs=[Variable('y')], name=name, vectorized=True,
+    comp = Component(model if fail_alpha is None else failing_model, inputs=inputs, outputs=[Variable('y')], name=name,
+                     vectorized=fail_alpha is None,
                      model_fidelity=tuple(limits[:na]), data_fidelity=tuple(limits[na:na + nd]),
                      surrogate_fidelity=tuple(limits[na + nd:]),
                      training_data=SparseGrid(knots_per_level=kpl, opt_args={'locally_biased': False, 'maxfun': 60}))
